@@ -125,26 +125,32 @@ class LatticeApp(object):
     """MapProxyApp on one lattice grid: layer `lay` <- cache `c` (file) <- WMS source `up` (faked)"""
 
     def __init__(self, g, srs='EPSG:3857', meta_size=(2, 2), meta_buffer=0, source_coverage=None, services=None,
-                 extra_conf=None, regime=None):
+                 extra_conf=None, scale=1, featureinfo=False, wms_srs=None):
         from mapproxy.config.loader import ProxyConfiguration
         from mapproxy.wsgiapp import MapProxyApp
         import mapproxy.client.http as http
         from webtest import TestApp
         self.g = g
+        self.scale = scale
         self.dir = tempfile.mkdtemp(prefix='verif-lapp-')
         self.log = []
+        self.info_log = []
         src = {'type': 'wms', 'req': {'url': 'http://upstream.invalid/service', 'layers': 'up'},
                'supported_srs': [srs]}
+        if featureinfo:
+            src['wms_opts'] = {'featureinfo': True}
         if source_coverage:
-            src['coverage'] = {'bbox': list(source_coverage), 'srs': srs}
+            src['coverage'] = {'bbox': [v * scale for v in source_coverage], 'srs': srs}
         conf = {
-            'services': services or {'tms': {}, 'wmts': {'restful': True, 'kvp': True}, 'kml': {}, 'wms': {'srs': [srs], 'md': {'title': 't'}}},
+            'services': services or {'tms': {}, 'wmts': {'restful': True, 'kvp': True}, 'kml': {}, 'wms': {'srs': wms_srs or [srs], 'md': {'title': 't'}}},
             'layers': [{'name': 'lay', 'title': 'lay', 'sources': ['c']}],
             'caches': {'c': {'grids': ['g'], 'sources': ['up'], 'format': 'image/png',
                              'meta_size': list(meta_size), 'meta_buffer': meta_buffer,
                              'cache': {'type': 'file', 'directory': os.path.join(self.dir, 'cache')}}},
             'sources': {'up': src},
-            'grids': {'g': {'srs': srs, 'bbox': list(g['bbox']), 'res': list(g['res']), 'tile_size': [g['tw'], g['th']],
+            'grids': {'g': {'srs': srs, 'bbox': [v * scale for v in g['bbox']], 'res': [r * scale for r in g['res']],
+                            'tile_size': [g['tw'], g['th']], 'stretch_factor': g['sn'] / float(g['sd']),
+                            'max_shrink_factor': float(g['ms']),
                             'origin': 'ul' if g['ul'] else 'll'}},
             'globals': {'image': {'paletted': False, 'resampling_method': 'nearest'},
                         'cache': {'base_dir': os.path.join(self.dir, 'cache_data'), 'lock_dir': os.path.join(self.dir, 'locks'),
@@ -170,8 +176,14 @@ class LatticeApp(object):
     def _upstream(self, url):
         from urllib.parse import urlparse, parse_qs
         q = {k.upper(): v[0] for k, v in parse_qs(urlparse(url).query).items()}
+        if q.get('REQUEST', '').lower() in ('getfeatureinfo', 'feature_info'):
+            self.info_log.append(q)
+            buf = io.BytesIO(b'info')
+            buf.headers = {'Content-type': 'text/plain'}
+            buf.code = 200
+            return buf
         self.log.append(q)
-        bbox = [float(v) for v in q['BBOX'].split(',')]
+        bbox = [float(v) / self.scale for v in q['BBOX'].split(',')]
         size = (int(q['WIDTH']), int(q['HEIGHT']))
         img = paint_cells(self.g, bbox, size)
         buf = io.BytesIO()
